@@ -332,6 +332,15 @@ def _exc(e):
     return f"{type(e).__name__}: {msg[:160]} [at {where}]"
 
 
+def _exc_fields(e, step):
+    """Triage: identifier-named detail fields for the known-finding matcher (`case.exc`, `case.at`, `case.step`):
+    exception class, innermost urwid frame as 'file.py:function' (no line number: stable across patches), and the
+    call that raised ('sizing' / 'rows' / 'pack' / 'render' / 'content')."""
+    frames = [f for f in traceback.extract_tb(e.__traceback__) if "urwid" in f.filename]
+    at = f"{os.path.basename(frames[-1].filename)}:{frames[-1].name}" if frames else ""
+    return {"exc": type(e).__name__, "at": at, "step": step.split("(", 1)[0], "msg": " ".join(str(e).split())[:120]}
+
+
 def _mode_of(size):
     return ("fixed", "flow", "box")[len(size)]
 
@@ -359,6 +368,7 @@ def judge(code, mode, size, focus):
             rows_after = w.rows(size, focus)
     except Exception as e:  # noqa: BLE001  -- the exception is the observation
         res["render-succeeds"] = (False, f"{step} raised {_exc(e)}")
+        obs.update(_exc_fields(e, step))
         return res, obs
     res["render-succeeds"] = (True, "")
 
@@ -382,6 +392,7 @@ def judge(code, mode, size, focus):
         except Exception as e:  # noqa: BLE001
             content = None
             bad.append(f"canvas.content() raised {_exc(e)}")
+            obs.update(_exc_fields(e, "content()"))
         if content is not None:
             if len(content) != rows:
                 bad.append(f"{len(content)} content rows, canvas.rows() = {rows}")
@@ -440,6 +451,12 @@ def _with_encoding(enc, fn):
 def detail(expr, enc, size, focus, clause, why, obs):
     d = {"expr": expr, "enc": enc, "size": list(size), "focus": focus, "clause": clause, "why": why}
     d.update(obs)
+    # Triage: fields for the known-finding matcher, which reaches the detail by attribute access only (so 'pack()'
+    # and 'rows()' get identifier names) and needs the tree shape apart from the option values.
+    names = re.findall(r"\b([A-Za-z_][A-Za-z0-9_]*)\(", expr)
+    d.update(mode=_mode_of(size), root=names[0] if names else "", classes=names, pack=obs.get("pack()"), rows_calc=obs.get("rows()"))
+    for k in ("exc", "at", "step", "msg", "canvas", "cursor"):
+        d.setdefault(k, None)
     call = f"w.render({tuple(size)!r}, {focus})"
     d["repro"] = f"import urwid; from urwid import *; from bounded.C01 import *; urwid.set_encoding({enc!r}); w = {expr}; print(w.sizing()); c = {call}; print(c.cols(), c.rows(), c.cursor, list(c.content()))"
     return d
@@ -597,6 +614,19 @@ def texts(enc, mode, thorough):
     return out
 
 
+def one_column(ch):
+    """Triage (generator false alarm): Divider's div_char, SolidFill's fill_char, LineBox's line characters and
+    ScrollBar's thumb/trough characters are *fill characters*: urwid repeats them once per column and SolidCanvas
+    documents-by-rejection ("Invalid fill_char") anything that is not exactly one screen column wide.  The first
+    version generated '\u4e2d' (two columns) and '\u0301' (zero columns) for them and reported the deliberate ValueError
+    as a render failure; such arguments are outside the statement's quantifier ("the bundled widgets' documented
+    option values").  Wide and zero-width characters stay covered everywhere a *text* is accepted (Text, Edit,
+    labels, titles, LineBox corners, BigText, GraphVScale labels ...)."""
+    if isinstance(ch, bytes):
+        return len(ch) == 1 and 0x20 <= ch[0] < 0x7F
+    return len(ch) == 1 and own_char_width(ch) == 1
+
+
 WRAPS = ("space", "any", "clip", "ellipsis")
 ALIGNS = ("left", "center", "right")
 FONTS = ("Thin3x3Font", "Thin4x3Font", "Thin6x6Font", "HalfBlock5x4Font", "HalfBlock6x5Font", "HalfBlockHeavy6x5Font", "HalfBlock7x7Font", "Sextant2x2Font", "Sextant3x3Font")
@@ -621,8 +651,8 @@ def leaves(enc, mode, thorough):
     ed += [f"Edit('', b'ab', wrap={w!r})" for w in WRAPS]
     fam["Edit"] = ed
     fam["NumEdit"] = [f"{c}({cap}, {d})" for c in ("IntEdit", "IntegerEdit", "FloatEdit") for cap in ("''", "'n:'", "'中'") for d in ("None", "0", "123456")] + ["FloatEdit('f', '1.5', preserveSignificance=True, decimalSeparator=',')", "IntegerEdit('h', 255, base=16)"]
-    fam["Divider"] = [f"Divider({lit(ch)}{o})" for ch in (" ", "-", "─", "中", "\u0301", b"-") for o in _kw(top=(..., 1, 2), bottom=(..., 1))] + ["Divider()"]
-    fam["SolidFill"] = [f"SolidFill({lit(ch)})" for ch in (" ", "x", "─", "中", "\u0301")] + ["SolidFill()"]
+    fam["Divider"] = [f"Divider({lit(ch)}{o})" for ch in (" ", "-", "─", "中", "\u0301", b"-") if one_column(ch) for o in _kw(top=(..., 1, 2), bottom=(..., 1))] + ["Divider()"]
+    fam["SolidFill"] = [f"SolidFill({lit(ch)})" for ch in (" ", "x", "─", "中", "\u0301") if one_column(ch)] + ["SolidFill()"]
     fam["SelectableIcon"] = [f"SelectableIcon({t}, {p}{o})" for t in T[: 9 if not thorough else len(T)] for p in (0, 1, 5) for o in _kw(align=(..., "right"), wrap=(..., "clip", "any"))]
     labels = ["''", "'ok'", "'a中b'", "'e\\u0301'", "'ab cd ef'", "b'by'"]
     fam["Button"] = [f"Button({t}{o})" for t in labels for o in _kw(align=ALIGNS, wrap=WRAPS)]
@@ -733,9 +763,11 @@ def decorations(children, lvl):
     else:
         lb = [""] + [f", {t!r}, {a!r}" for t in ("T", "中", "long title") for a in ALIGNS]
         lb += [", tline=''", ", bline=''", ", lline=''", ", rline=''", ", tline='', bline=''", ", lline='', rline=''", ", tline='', bline='', lline='', rline=''", ", 'T', tline=''", ", 'T', lline='', rline=''"]
-        lb += [", tlcorner='中', tline='中', trcorner='中', lline='中', rline='中', blcorner='中', bline='中', brcorner='中'"]
+        # corners are Text widgets (any text); tline/bline/lline/rline are fill characters (see `one_column`): a wide
+        # character is generated for the corners only, a one-column non-ASCII one for the lines
+        lb += [", tlcorner='中', trcorner='中', blcorner='中', brcorner='中'", ", tline='═', lline='║', rline='║', bline='═'"]
     fam["LineBox"] = [f"LineBox({c}{o})" for c in C for o in lb]
-    sb = ("", ", side='left'", ", width=2", ", thumb_char='中'") if lvl else ("",)
+    sb = ("", ", side='left'", ", width=2", ", thumb_char='#'") if lvl else ("",)  # thumb_char is a fill character (see `one_column`); was '中'
     fam["Scrollable"] = [f"Scrollable({c})" for c in C] + [f"ScrollBar(Scrollable({c}){o})" for c in C for o in sb]
     fam["ScrollBar"] = [f"ScrollBar({c}{o})" for c in C for o in (("", ", side='left', width=3") if lvl else ("",))]
     return fam
@@ -894,6 +926,18 @@ def depth3_sample(enc, mode, tier, seed, count):
 # ------------------------------------------------------------------------------------------------
 AUX = "aux-reported-mode-of-illformed-tree"
 PROBE = {"fixed": (), "flow": (3,), "box": (3, 2)}
+# Triage: the auxiliary check is a reading beyond the statement.  The statement ranges over widget trees and over
+# "the bundled widgets' documented option values"; a child put into a slot whose sizing mode it does not report
+# (`Pile([(2, Text('x'))])`: "always treat widget as a box widget"; a flow Text as the box body of a Filler; a
+# box widget in a 'pack' column ...) is a usage error by urwid's own documentation -- urwid answers most of them
+# with a PileWarning/ColumnsWarning/OverlayWarning and a fall-back sizing() -- so what render() does with such a
+# tree is outside the quantifier.  The probes are kept (reported as observations, never as violations) because a
+# container that *silently* reports a mode it cannot render is still worth watching.
+INFORMATIONAL = {
+    f"C01/{AUX}": "literal reading beyond the statement: modes sizing() reports for trees that are ill-formed by urwid's documentation "
+    "(a child in a slot whose sizing mode it does not report -- a usage error, mostly answered with a Pile/Columns/OverlayWarning); "
+    "the statement quantifies over documented option values only",
+}
 REPORT_ILLFORMED = True  # set to False to drop the auxiliary (literal-reading) check from the results
 
 
